@@ -323,6 +323,9 @@ def create_sparse_by_pair_marker_file(
     t0 = time.time()
     ct_complete = 0
 
+    this_cluster_stats = None
+    this_idx_to_pair = None
+    this_tree_as_leaves = None
     for col0 in range(0, n_pairs, n_per):
 
         (col1,
